@@ -29,7 +29,7 @@ theorem C16.guards_are_documented_limits (mode : Mode) (n m off : Nat) (c : K) :
     (check mode .adjoint m n off (0 : K) = none ↔ Admissible mode n m off) := by
   constructor <;>
   · cases mode <;>
-    simp only [check, paddingGuards, Admissible, PadOK, reduceCtorEq, false_and, true_and,
+    simp only [check, paddingGuards, OdlModel.Gen.PadSlices.guards, Admissible, PadOK, reduceCtorEq, false_and, true_and,
       and_false, ne_eq, not_true_eq_false, ↓reduceIte, gt_iff_lt, ge_iff_le] <;>
     split_ifs <;> simp <;> omega
 
